@@ -167,6 +167,11 @@ func runC06onEngine(c *harness.Case, kind string) {
 				R := l1.Header.GetRevision()
 				compBefore := atomic.LoadInt64(&nCompact)
 				failBefore := atomic.LoadInt64(&nFail)
+				if rr.Intn(2) == 0 {
+					// the client takes its time between the list and the watch: R+1 then lies well inside the event cache
+					// and the watch begins with a catch-up while writes go on
+					time.Sleep(time.Duration(rr.Intn(2500)) * time.Microsecond)
+				}
 				ctx, cancel := context.WithCancel(context.Background())
 				ch, err := n.B.Watch(ctx, P, R+1)
 				if err != nil {
